@@ -29,7 +29,12 @@ def spelling_obligation(query: list) -> Obligation:
         import jsonpath
 
         env = jsonpath.JSONPathEnvironment()
-        base = oracle.shape(env.compile(canon))
+        bracketed = oracle.query_text(query, shorthand=False)
+        try:
+            base = oracle.shape(env.compile(bracketed))
+        except jsonpath.JSONPathError as e:
+            return {"status": "violated", "detail": f"the bracketed spelling {bracketed!r} does not compile: {e}",
+                    "replay": {"harness": "harness/c01_spell.py", "fn": "same_shape", "params": {}, "call": f"same_shape({bracketed!r}, {bracketed!r})"}}
         n = 0
         for text in _spellings(query):
             try:
@@ -42,7 +47,7 @@ def spelling_obligation(query: list) -> Obligation:
                     "status": "violated",
                     "detail": f"spelling {text!r} compiles to a different structure than {canon!r}",
                     "replay": {"harness": "harness/c01_spell.py", "fn": "same_shape", "params": {},
-                               "call": f"same_shape({canon!r}, {text!r})"},
+                               "call": f"same_shape({bracketed!r}, {text!r})"},
                 }
         return {"status": "discharged", "detail": f"{n} spellings of {canon} compile to one structure"}
 
